@@ -6,5 +6,7 @@ CONSTANTS
   Part = "links"
   ListStyle = "versioned"
   Chains = TRUE
+  Configs = {"default"}
+  SampleConfigs = {}
 INVARIANT LinksRefineP
 CHECK_DEADLOCK FALSE
